@@ -505,7 +505,7 @@ PROPS["C18"] = {
         U("c18_sanitise", "inpkg", "server/lib", "^TestVerifC18Sanitise$", (4000, 50000)),
         U("c18_ringmap", "inpkg", "server/lib", "^TestVerifC18RingMap$", (1500, 20000)),
         U("c18_ringmap_concurrent", "inpkg", "server/lib", "^TestVerifC18RingMapConcurrent$", (150, 1500), shards=(2, 4)),
-        U("c18_attribution", "ext", "c05", "^TestVerifC18Attribution$", (40, 600), shards=(4, 8), timeout=(400, 3000)),
+        U("c18_attribution", "ext", "c05", "^TestVerifC18Attribution$", (150, 1200), shards=(8, 8), timeout=(400, 3000)),
         U("c18_remoteip", "inpkg", "proxy/lib", "^TestVerifC18RemoteIP$", (1500, 20000), shards=(4, 8)),
     ],
 }
